@@ -180,6 +180,14 @@ Program genC09(Rand& R, int tier)
                     G.genCollection(7, frel, 10, false);
                     G.emit({"bin", "UNION", "8", "7", "8", Gen::num(frel)});
                 }
+                if (R.chance(5)) { G.emit({"coll", "8", Gen::num(frel), "max", "0"}); G.setLive(8, frel); }   // the empty relation
+                // the all-unreachable function built directly: the image under the empty relation must be this edge
+                if (R.chance(10)) {
+                    if (sk.range == 'B') G.emit({"const", "16", Gen::num(fres), "0"});
+                    else if (sk.label == 'P') G.emit({"const", "16", Gen::num(fres), "inf"});
+                    else G.emit({"const", "16", Gen::num(fres), "-1"});
+                    G.setLive(16, fres);
+                }
             }
             if (r == 0 || R.chance(60)) emitInitial(G, fset, 9, 6, sk.range == 'B' ? 0 : 5);
             int steps = R.range(1, 4);
